@@ -72,9 +72,11 @@ CHECKS = {
          "to every step: C09_wf (the result satisfies C04/C05, both case modes, every folding function), C09_union (it knows "
          "exactly the union of the inputs' CURIE prefixes and URI prefixes), C09_error / C09_empty (only ValueError), and for "
          "get_subconverter C09_sub_records (exactly the records with a prefix or synonym in P, well-formed) and C09_sub_expand "
-         "(answers as the parent on kept prefixes, None otherwise). Grouping, first-converter priority, chain([c]) and the "
-         "case-insensitive separation are evaluated on the implementation's outputs on every run (laws in harness/props/c09.py) "
-         "and through the correspondence; they are not yet theorems.",
+         "(answers as the parent on kept prefixes, None otherwise), C09_priority (case-sensitive: every record of the first "
+         "converter survives with its canonical prefix, canonical URI prefix and pattern, so every prefix known to c1 expands "
+         "as in c1) and C09_singleton (chain([c]) has c's records). Grouping and the case-insensitive separation are evaluated "
+         "on the implementation's outputs on every run (laws in harness/props/c09.py) and through the correspondence; they "
+         "follow from C09_wf + C05_shape but are not stated as separate theorems.",
     design="§7 C09", technique="Lean 4 theorem (fold invariant over add_record steps) + model/implementation correspondence with planted overlaps"),
  "C10": dict(
     text="Proof at the aliasing level (Model/Heap.lean: Record objects behind references): C10_frame_chain and C10_frame_copy "
@@ -87,11 +89,12 @@ CHECKS = {
     design="§7 C10", technique="Lean 4 theorem (frame theorems over a heap-of-records model, induction over follow-up histories) + history correspondence re-observing the inputs"),
  "C11": dict(
     text="Proof (partial): C11_order_errors (only the four documented errors), C11_ordering_perm (each pair processed exactly "
-         "once; the peel-off loop terminates), C11_skip_unknown, C11_step_uri_part / C11_run_uri_part (no step changes the number "
-         "of working records or any record's canonical URI prefix, URI-prefix synonyms or pattern). The remaining clauses "
-         "(record count of the final constructor call, every known prefix stays known, applicable pairs applied, clashes skipped) "
-         "are decided by the Lean checker Spec.C11.ok evaluated on the implementation's records on every run and by the "
-         "correspondence with the full model of the ordering and the main loop; they are not yet theorems about the model.",
+         "once; the peel-off loop terminates), C11_skip_unknown, C11_uri_part (same number of records; the records correspond one "
+         "to one with identical canonical URI prefix, URI-prefix synonyms and pattern: popped-index bookkeeping returns every "
+         "record exactly once), C11_step_known and C11_known_partial (every known prefix stays known for remappings without "
+         "hand-over chains). For transitive chains 'every known prefix stays known', and the 'applicable pair applied / clash "
+         "skipped' clauses, are decided by the Lean checker Spec.C11.ok evaluated on the implementation's records on every run "
+         "and by the correspondence with the full model of the ordering and the main loop; they are not theorems about the model.",
     design="§7 C11", technique="Lean 4 theorem (termination/permutation of the ordering, per-step invariants) + Lean spec checker on implementation output + model/implementation correspondence"),
  "C12": dict(
     text="Proof: C12_transitive_iff (TransitiveError iff some string is both key and value), C12_upgrade (for every record and "
